@@ -116,6 +116,39 @@ class CoreGen:
         return {'rules': rules, 'ign': [], 'start': 'start'}
 
 
+class RepGen(CoreGen):
+    """Random grammars in which most compound nodes are bounded repetitions or separated lists (C03)."""
+
+    def expr(self, depth):
+        r = self.rng
+        if depth <= 0 or r.random() < 0.15:
+            return r.choice([S('a'), S('b'), S(','), S('ab'), ['ref', 'R1'], RX_AB_CLASS, ['seq', [S('a'), S('b')]]])
+        k = r.choice(['rep', 'rep', 'sep', 'sep', 'seq', 'choice', 'opt', 'expect', 'not', 'left'])
+        X = lambda: self.expr(depth - 1)
+        if k == 'rep':
+            lo = r.choice([None, 0, 1, 2, 3])
+            hi = r.choice([None, 1, 2, 3])
+            if lo is not None and hi is not None and lo > hi:
+                lo, hi = hi, lo
+            return ['list', X(), NONE if lo is None else N(lo), NONE if hi is None else N(hi)]
+        if k == 'sep':
+            d, t, e, q = [r.random() < 0.5 for _ in range(4)]
+            if q and not t:
+                t = True
+            return ['sep', X(), r.choice([S(','), ['seq', [S(','), S(',')]], ['choice', [S(','), S('b')]], X()]), [d, t, e, q]]
+        if k == 'seq':
+            return ['seq', [X() for _ in range(r.choice([2, 3]))]]
+        if k == 'choice':
+            return ['choice', [X(), X()]]
+        if k == 'opt':
+            return ['opt', X()]
+        if k == 'expect':
+            return ['expect', X()]
+        if k == 'not':
+            return ['not', X()]
+        return ['left', X(), X()]
+
+
 class OpGen:
     """Random operator tables (C02)."""
     SPELL = ['-', '+', '++', '-+', '!', '<', '*']
